@@ -33,7 +33,7 @@ def cross_links(spec):
 
 
 def has_gold(spec):
-    return any(c['gov'] == 'GOLD' for c in spec['countries'])
+    return any(c['gov'] in ('GOLD', 'GOLDCB') for c in spec['countries'])
 
 
 def units(tier):
@@ -146,7 +146,7 @@ def check_spec(spec, labels):
                 if got != want:
                     V('foreign-supplier-cashflow-wrong', 'period %d: %s receives %s for its exports, expected %s' % (k, fname, got, want))
         # gold purchases: the buyer pays `purchase` in its currency; the gold market is credited its numeraire value
-        gold_buyers = [c for c in spec['countries'] if c['gov'] == 'GOLD']
+        gold_buyers = [c for c in spec['countries'] if c['gov'] in ('GOLD', 'GOLDCB')]
         if gold_buyers:
             gold = m.ExternalSector['GOLD']
             netoz = gold.GetVariableName('NETOZ')
@@ -154,7 +154,7 @@ def check_spec(spec, labels):
             want_oz = 0
             gold_num = 0
             for c in gold_buyers:
-                gov = S[(c['code'], 'GOV')]
+                gov = S[(c['code'], 'GOV' if c['gov'] == 'GOLD' else 'CB')]
                 pur = s[gov.GetVariableName('GOLDPURCHASES')]
                 x = s[xrname[c['cur']]]
                 want_oz += x * pur
